@@ -17,6 +17,23 @@ fn v(x: u64) -> VarInt {
     VarInt::new(x).unwrap()
 }
 
+/// arbitrary IncrementalValueSync with the given latest value (see IncrementalValueSync::verif_build in ivs.rs);
+/// the nondeterministic values are drawn here, in the harness's own module
+fn any_sync_with_latest<S: ValueToFrameWriter<VarInt>>(latest: u64) -> IncrementalValueSync<VarInt, S> {
+    let nd: [u64; 4] = kani::any();
+    let kind: u8 = kani::any();
+    IncrementalValueSync::verif_build(latest, nd, kind)
+}
+
+/// arbitrary real connection controller satisfying `icfc_inv` (IncomingConnectionFlowController::verif_build in icfc.rs)
+fn any_conn() -> IncomingConnectionFlowController {
+    let window: u32 = kani::any();
+    let s: [u64; 3] = kani::any();
+    let nd: [u64; 4] = kani::any();
+    let kind: u8 = kani::any();
+    IncomingConnectionFlowController::verif_build(window, s, nd, kind)
+}
+
 fn abs_conn(c: &IncomingConnectionFlowController) -> Icfc {
     let s = c.verif_abs(); // contracts/kani/transport/icfc.rs
     Icfc { advertised: s[0] as i128, acquired: s[1] as i128, consumed: s[2] as i128, window: s[3] as i128 }
@@ -38,7 +55,7 @@ fn abs(fc: &ReceiveStreamFlowController) -> Rsfc {
 /// initial == desired <= u32::MAX; `window` ranges over all of u32.  The builder does not restrict the state
 /// further than the invariant, so states that the constructor cannot produce are covered as well.
 fn any_rsfc() -> (IncomingConnectionFlowController, ReceiveStreamFlowController) {
-    let conn = IncomingConnectionFlowController::verif_any();
+    let conn = any_conn();
     let window: u32 = kani::any();
     let advertised: u64 = kani::any();
     let acquired: u64 = kani::any();
@@ -47,7 +64,7 @@ fn any_rsfc() -> (IncomingConnectionFlowController, ReceiveStreamFlowController)
     kani::assume(advertised as u128 <= released as u128 + window as u128);
     let fc = ReceiveStreamFlowController {
         connection_flow_controller: conn.clone(),
-        read_window_sync: IncrementalValueSync::verif_any_with_latest(advertised),
+        read_window_sync: any_sync_with_latest(advertised),
         desired_flow_control_window: window,
         acquired_connection_window: v(acquired),
         released_connection_window: v(released),
@@ -160,7 +177,7 @@ fn vq_c04_rsfc_release_outstanding_window() {
 fn vq_c04_rsfc_new() {
     // call-site fact (stream/manager.rs:222-247, the only non-test path to this constructor):
     // initial_window == desired_flow_control_window <= u32::MAX
-    let conn = IncomingConnectionFlowController::verif_any();
+    let conn = any_conn();
     let c_old = abs_conn(&conn);
     let window: u32 = kani::any();
     let fc = ReceiveStreamFlowController::new(conn.clone(), VarInt::from_u32(window), window);
@@ -181,7 +198,21 @@ fn vq_c04_rsfc_new() {
 #[kani::unwind(10)]
 fn vq_c04_rsfc_max_stream_data_on_transmit() {
     // ReceiveStream::on_transmit forwards to flow_controller.read_window_sync.on_transmit(stream_id, ..)
-    let (conn, mut fc) = any_rsfc();
+    // the connection controller is not involved in writing MAX_STREAM_DATA: a fresh one keeps this harness small
+    let window: u32 = kani::any();
+    let advertised: u64 = kani::any();
+    let acquired: u64 = kani::any();
+    let released: u64 = kani::any();
+    kani::assume(released <= acquired && acquired <= advertised && advertised <= MAXV);
+    kani::assume(advertised as u128 <= released as u128 + window as u128);
+    let conn = IncomingConnectionFlowController::new(VarInt::from_u32(0), 0);
+    let mut fc = ReceiveStreamFlowController {
+        connection_flow_controller: conn.clone(),
+        read_window_sync: any_sync_with_latest(advertised),
+        desired_flow_control_window: window,
+        acquired_connection_window: v(acquired),
+        released_connection_window: v(released),
+    };
     let old = abs(&fc);
     let c_old = abs_conn(&conn);
     let sid: u64 = kani::any();
